@@ -13,6 +13,9 @@
 (*   FixedIsEmpty   TRUE: HllArray::isEmpty() returns false while the      *)
 (*                  rebuild flag is set (proposed fix hll_union_empty);    *)
 (*                  FALSE: the pinned code (trusts the stale counters)     *)
+(*   FixedDownsampleKxq TRUE: copy_or_downsample rebuilds KxQ right after   *)
+(*                  the down-sampling merge (fix 96157e7); FALSE: pending    *)
+(*                  rebuild next to a live HIP accumulator (HipOK violated)  *)
 (*   FixedReset     TRUE: reset() re-creates the gadget at lg_max_k        *)
 (*                  (proposed fix hll_union_reset); FALSE: the pinned code *)
 (*                  (gadget_.reset() keeps the down-sampled lg_k)          *)
@@ -58,6 +61,8 @@ EmptyOK == IsEmpty(g) = gh.empty
 \* while the flag is clear the stored counters are exact (what isEmpty and the bounds rely on)
 CountersOK == (g.hll /\ ~g.rb) => LET m == GMinOf({g.reg[s] : s \in DOMAIN g.reg}) IN
                 (g.cmin = 0 /\ g.nac = Zeros(g.reg)) \/ (g.cmin > 0 /\ g.cmin <= m)
+\* the HIP accumulator, while in use, only ever received increments computed from a current KxQ
+HipOK == ~g.hipBad
 UInvOK == U!UInv
 Refines == [][U!UNext]_dvars
 ====
